@@ -7,6 +7,7 @@ DOC = "berty.tech/go-orbit-db/stores/documentstore"
 EL = "berty.tech/go-orbit-db/stores/eventlogstore"
 
 DC = "berty.tech/go-orbit-db/pubsub/directchannel"
+EV = "berty.tech/go-orbit-db/events"
 
 PSC = "berty.tech/go-orbit-db/pubsub/pubsubcoreapi"
 OOO = "berty.tech/go-orbit-db/pubsub/oneonone"
@@ -32,11 +33,23 @@ CHECKS = {
             "params": {"quick": {"STEPS": 3}, "thorough": {"STEPS": 4}},
             "max_paths": {"quick": 60000, "thorough": 400000},
             "covers": {"VerifC05Crash": ["local-write", "replicated-event"]},
+        }, {
+            "pkg": EV, "funcs": ["VerifC16LegacyStall", "VerifC16LegacyRace"],
+            "params": {"quick": {"N": 18, "P": 2}, "thorough": {"N": 19, "P": 2}},
+            "max_paths": {"quick": 400000, "thorough": 1500000},
+            "timeout": {"quick": "15m", "thorough": "90m"},
+            "covers": {"VerifC16LegacyStall": ["drained"], "VerifC16LegacyRace": ["drained"]},
+        }, {
+            "pkg": EV, "funcs": ["VerifC16LegacyStall"],
+            "params": {"quick": {"N": 200}, "thorough": {"N": 600}},
+            "covers": {"VerifC16LegacyStall": ["drained"]},
+            "validate": False,
         }],
         "assumptions": [
-            "clause (a) state-before-event only: every emission on the store's bus is observed synchronously in the emitting goroutine (a wrapper around the bus); on EventWrite the log and the view already hold the entry and there is exactly one write event per successful write; on EventReplicated all announced entries are in the log and the merged heads are already persisted",
+            "clause (c) legacy channel API: the real events.EventEmitter (Emit, Subscribe, handleSubscriber with its two buffering goroutines, real container/list, sync.Cond) over the stub bus; N events (N > channel capacity 16); every interleaving of emitter, the two goroutines and the subscriber with at most P preemptions (switch or stall) at visible operations; plus a subscriber that stalls until everything else is blocked and then drains N events",
+            "clause (a) state-before-event: every emission on the store's bus is observed synchronously in the emitting goroutine (a wrapper around the bus); on EventWrite the log and the view already hold the entry and there is exactly one write event per successful write; on EventReplicated all announced entries are in the log and the merged heads are already persisted",
         ],
-        "outside": ["clause (b): ordering/losslessness of the real libp2p eventbus (the stub bus mirrors its blocking per-sink FIFO)", "clause (c): the legacy events.EventEmitter channel API under all interleavings of its two buffering goroutines with 17+ pending events is NOT decided (see DESIGN.md §3)"],
+        "outside": ["clause (b): ordering/losslessness of the real libp2p eventbus (the stub bus mirrors its blocking per-sink FIFO)", "clause (c) beyond P preemptions / N events; data races below visible-operation granularity"],
     },
     "C01": {
         "groups": [{
